@@ -537,6 +537,12 @@ type vrReader struct {
 	// failPartial > 0: the failing call hands out that many bytes together with its error (which the io.Reader
 	// contract allows), and the reader works again afterwards - a source that recovers after a fault
 	failPartial int
+	// zeroEvery > 0: every zeroEvery-th call returns (0, nil) without consuming anything - allowed by io.Reader
+	// (discouraged, not forbidden); callers must simply read again
+	zeroEvery int
+	// eofWithData: the call that hands out the last bytes of the stream returns them together with io.EOF
+	// (allowed by io.Reader) instead of returning io.EOF on the following call
+	eofWithData bool
 }
 
 func vrNewReader(chunks ...[]byte) *vrReader {
@@ -565,6 +571,9 @@ func (r *vrReader) Read(p []byte) (int, error) {
 		return k, errors.New("scripted reader failure")
 	}
 	r.calls++
+	if r.zeroEvery > 0 && r.calls%r.zeroEvery == 0 {
+		return 0, nil
+	}
 	if r.pos >= len(r.data) {
 		return 0, io.EOF
 	}
@@ -574,6 +583,9 @@ func (r *vrReader) Read(p []byte) (int, error) {
 	}
 	k := copy(p[:m], r.data[r.pos:])
 	r.pos += k
+	if r.eofWithData && r.pos >= len(r.data) {
+		return k, io.EOF
+	}
 	return k, nil
 }
 
@@ -744,6 +756,9 @@ func vrSignDesc(d, e []byte, chunks [][]byte) string {
 	return fmt.Sprintf(`{"priv":"%s","e":"%s","rand":"%s"}`, vrHex(d), vrHex(e), vrChunksHex(chunks))
 }
 
+// vrSignZeroEvery > 0: the scripted reader of vrCheckSignPriv returns (0, nil) on every vrSignZeroEvery-th call.
+var vrSignZeroEvery int
+
 // vrCheckSign runs SignHashed on the scripted stream and compares with the reference.
 func vrCheckSign(c *vrCase, d *big.Int, e []byte, chunks [][]byte, maxRead int, tag string) {
 	vrCheckSignPriv(c, d, vrB32(d), e, chunks, maxRead, tag)
@@ -759,7 +774,11 @@ func vrCheckSignPriv(c *vrCase, d *big.Int, db []byte, e []byte, chunks [][]byte
 	d0, e0 := append([]byte{}, db...), append([]byte{}, e...)
 	rd := vrNewReader(chunks...)
 	rd.maxRead = maxRead
+	rd.zeroEvery = vrSignZeroEvery
 	in := vrSignDesc(db, e, chunks)
+	if vrSignZeroEvery > 0 {
+		in = in[:len(in)-1] + fmt.Sprintf(`,"maxRead":%d,"zeroLengthReadEvery":%d}`, maxRead, vrSignZeroEvery)
+	}
 	if tag != "" {
 		in = in[:len(in)-1] + fmt.Sprintf(`,"kind":"%s"}`, tag)
 	}
@@ -818,6 +837,15 @@ func vrCaseSignHashed(c *vrCase) {
 		e.Mod(e, vrN)
 		vrCheckSign(c, d, vrB32(e), [][]byte{vrB32(k1), k2}, 0, "s=0 on first nonce")
 	}
+	// readers that now and then return (0, nil): draws are completed by further reads
+	for _, ze := range []int{2, 3} {
+		vrSignZeroEvery = ze
+		for _, mr := range []int{0, 5, 31} {
+			d := vrRandKey(c.rng)
+			vrCheckSign(c, d, vrRandE(c.rng), [][]byte{vrB32(vrN), vrB32(vrRandNonce(c.rng)), vrBytes(c.rng, 32)}, mr, "zero-length reads")
+		}
+	}
+	vrSignZeroEvery = 0
 	// reader failures: error, nil r and s
 	for i := 0; i < 6; i++ {
 		d := vrB32(vrRandKey(c.rng))
@@ -848,6 +876,25 @@ func vrCaseSignHashed(c *vrCase) {
 		var r, s []byte
 		var err error
 		in := fmt.Sprintf(`{"priv":"%s","e":"%s","rand":"%s","kind":"stream ends on a candidate boundary","maxRead":%d}`, vrHex(d), vrHex(e), vrHex(data), rd.maxRead)
+		if p := vrTry(func() { r, s, err = SignHashed(rd, d, e) }); p != "" {
+			c.check(false, in, p, "err!=nil,r=nil,s=nil")
+			continue
+		}
+		c.check(err != nil && r == nil && s == nil, in, fmt.Sprintf("err=%v,r=%s,s=%s", err, vrHex(r), vrHex(s)), "err!=nil,r=nil,s=nil")
+	}
+	// the stream ends in the middle of a candidate and the last bytes arrive together with io.EOF (first draw, after a
+	// rejected candidate, with short reads): an error, never a signature from a zero-padded nonce
+	for i, data := range [][]byte{vrBytes(c.rng, 7), vrBytes(c.rng, 31), append(vrB32(vrN), vrBytes(c.rng, 16)...), append(vrB32(vrN), vrBytes(c.rng, 31)...), vrBytes(c.rng, 20)} {
+		d := vrB32(vrRandKey(c.rng))
+		e := vrRandE(c.rng)
+		rd := vrNewReader(data)
+		rd.eofWithData = true
+		if i == 4 {
+			rd.maxRead = 8
+		}
+		var r, s []byte
+		var err error
+		in := fmt.Sprintf(`{"priv":"%s","e":"%s","rand":"%s","kind":"last bytes together with io.EOF, mid-candidate","maxRead":%d}`, vrHex(d), vrHex(e), vrHex(data), rd.maxRead)
 		if p := vrTry(func() { r, s, err = SignHashed(rd, d, e) }); p != "" {
 			c.check(false, in, p, "err!=nil,r=nil,s=nil")
 			continue
@@ -1518,6 +1565,7 @@ func vrCaseGenerateKey(c *vrCase) {
 		bytes.Repeat([]byte{0xff}, 32),
 		vrB32(vrP),
 	}
+	zeroEvery := 0
 	one := func(chunks [][]byte, maxRead int) {
 		// reference: first candidate in [1, n-2]
 		nm2 := new(big.Int).Sub(vrN, vrTwo)
@@ -1535,7 +1583,8 @@ func vrCaseGenerateKey(c *vrCase) {
 		want := fmt.Sprintf("priv=%s,x=%s,y=%s,chunks_used=%d", vrHex(chunks[idx]), vrHex(vrB32(pt.x)), vrHex(vrB32(pt.y)), idx+1)
 		rd := vrNewReader(chunks...)
 		rd.maxRead = maxRead
-		in := fmt.Sprintf(`{"rand":"%s","maxRead":%d}`, vrChunksHex(chunks), maxRead)
+		rd.zeroEvery = zeroEvery
+		in := fmt.Sprintf(`{"rand":"%s","maxRead":%d,"zeroLengthReadEvery":%d}`, vrChunksHex(chunks), maxRead, zeroEvery)
 		var priv, x, y []byte
 		var err error
 		if p := vrTry(func() { priv, x, y, err = GenerateKey(rd) }); p != "" || err != nil {
@@ -1565,6 +1614,16 @@ func vrCaseGenerateKey(c *vrCase) {
 		}
 		one(chunks, maxRead)
 	}
+	// readers that now and then return (0, nil): the draw is completed by further reads, also in the middle of a
+	// candidate and after rejected candidates
+	for _, ze := range []int{2, 3} {
+		zeroEvery = ze
+		one([][]byte{vrB32(vrRandKey(c.rng))}, 0)
+		one([][]byte{vrB32(vrRandKey(c.rng))}, 5)
+		one([][]byte{rejected[1], rejected[3], vrB32(vrRandKey(c.rng)), vrBytes(c.rng, 32)}, 7)
+		one([][]byte{rejected[0], vrB32(big.NewInt(1))}, 31)
+	}
+	zeroEvery = 0
 	// failing reader: error at Read call i -> non-nil error, nil x and y
 	for i := 0; i < 4; i++ {
 		rd := vrNewReader(rejected[0], rejected[1], rejected[2], vrB32(vrRandKey(c.rng)))
@@ -1577,6 +1636,33 @@ func vrCaseGenerateKey(c *vrCase) {
 			continue
 		}
 		c.check(err != nil && x == nil && y == nil, in, fmt.Sprintf("err=%v,x=%s,y=%s", err, vrHex(x), vrHex(y)), "err!=nil,x=nil,y=nil")
+	}
+	// the stream ends in the middle of a candidate and the last bytes arrive together with io.EOF
+	for i, data := range [][]byte{vrBytes(c.rng, 7), vrBytes(c.rng, 31), append(vrB32(vrN), vrBytes(c.rng, 16)...), append(vrB32(vrN), vrBytes(c.rng, 31)...), vrBytes(c.rng, 20)} {
+		rd := vrNewReader(data)
+		rd.eofWithData = true
+		if i == 4 {
+			rd.maxRead = 8
+		}
+		in := fmt.Sprintf(`{"rand":"%s","kind":"last bytes together with io.EOF, mid-candidate","maxRead":%d}`, vrHex(data), rd.maxRead)
+		var x, y []byte
+		var err error
+		if p := vrTry(func() { _, x, y, err = GenerateKey(rd) }); p != "" {
+			c.check(false, in, p, "err!=nil,x=nil,y=nil")
+			continue
+		}
+		c.check(err != nil && x == nil && y == nil, in, fmt.Sprintf("err=%v,x=%s,y=%s", err, vrHex(x), vrHex(y)), "err!=nil,x=nil,y=nil")
+	}
+	// complete candidates whose last bytes arrive together with io.EOF are successful draws (io.ReadFull semantics)
+	{
+		kd := vrRandKey(c.rng)
+		rd := vrNewReader(vrB32(kd))
+		rd.eofWithData = true
+		pt := vrMulPt(kd, vrG)
+		var priv, x, y []byte
+		var err error
+		p := vrTry(func() { priv, x, y, err = GenerateKey(rd) })
+		c.check(p == "" && err == nil && bytes.Equal(priv, vrB32(kd)) && bytes.Equal(x, vrB32(pt.x)) && bytes.Equal(y, vrB32(pt.y)), fmt.Sprintf(`{"rand":"%s","kind":"complete candidate together with io.EOF"}`, vrHex(vrB32(kd))), fmt.Sprintf("%serr=%v,priv=%s", p, err, vrHex(priv)), "the key of that candidate")
 	}
 	// a failing call that also hands out part of a candidate, from a source that then recovers
 	for i := 0; i < 12; i++ {
